@@ -1,0 +1,19 @@
+//go:build verif
+
+package secrets
+
+// Contracts for govc (see /verif/DESIGN.md). Comments only; compiled only with -tags verif.
+
+//@ spec
+//@ pred versionValidAt(from time.Time, until time.Time, t time.Time) := from != 0 && from <= t && (until == 0 || t < until)
+
+//@ func (Version).IsValidAt
+//@   ensures [C17:iff_window] result <==> versionValidAt(v.ValidFrom, v.ValidUntil, t)
+
+//@ func (Set).ValidAt$1
+//@   trusted
+
+//@ func (Set).ValidAt
+//@   loop 1 invariant [filtered] forall k int :: 0 <= k && k < len(out) ==> versionValidAt(out[k].ValidFrom, out[k].ValidUntil, t) && (exists j int :: 0 <= j && j <= rangeindex && s.Versions[j].ID == out[k].ID && s.Versions[j].Value == out[k].Value && s.Versions[j].ValidFrom == out[k].ValidFrom && s.Versions[j].ValidUntil == out[k].ValidUntil)
+//@   loop 1 invariant [complete] forall j int :: 0 <= j && j <= rangeindex && versionValidAt(s.Versions[j].ValidFrom, s.Versions[j].ValidUntil, t) ==> exists k int :: 0 <= k && k < len(out) && out[k].ID == s.Versions[j].ID && out[k].Value == s.Versions[j].Value
+//@   loop 1 invariant [bounds] rangeindex < len(s.Versions) && len(out) <= rangeindex + 1
